@@ -38,7 +38,7 @@ def bound(tier):
                 targets=dict(pure=["own state", "own * e^{i theta}, theta in {0.7, pi, -2.1}", "every basis state", "uniform", "3 generic complex"],
                              mixed=["own rho", "maximally mixed", "pure projector", "2 generic full-rank non-real"]),
                 bases="None; every single string; every unordered pair (n<=2); structured lists (n=3)",
-                target_forms=["tensor", "dict of pre-rotated targets"], nll="multisets of <= 3 rows from a 5-row pool, per-sample bases")
+                target_forms=["tensor", "dict of pre-rotated targets", "dict with keys in another order than bases"], nll="multisets of <= 3 rows from a 5-row pool, per-sample bases")
 
 
 def plan(tier, seed):
@@ -133,16 +133,19 @@ def check_state(acc, kind, arch, params):
                     bad("fidelity:space-omitted-differs", what, f2, f)
             # ---- KL
             for bl in bases_lists(kind, n):
-                for form in ("tensor", "dict"):
-                    if bl is None and form == "dict":
+                for form in ("tensor", "dict", "dict-reordered"):
+                    if bl is None and form != "tensor":
+                        continue
+                    if form == "dict-reordered" and len(bl) < 2:
                         continue
                     if bl is not None and len(bl) > 3 and tn not in ("own", "generic0", "generic1"):
                         continue
                     what = dict(metric="KL", target=tn, bases=bl, form=form)
                     bs = bl or ["Z" * n]
                     want = sum(R.kl(born_t(t, b), born_m(b)) for b in bs) / len(bs)
-                    if form == "dict":
-                        tgt = {b: c2t(Us[b] @ t @ Us[b].conj().T if t.ndim == 2 else Us[b] @ t) for b in bl}
+                    if form in ("dict", "dict-reordered"):
+                        order = bl if form == "dict" else bl[::-1]  # key order of the dict must not matter
+                        tgt = {b: c2t(Us[b] @ t @ Us[b].conj().T if t.ndim == 2 else Us[b] @ t) for b in order}
                         got = call(ts.KL, st, tgt, space, bases=bl)
                     else:
                         got = call(ts.KL, st, c2t(t), space, bases=bl)
